@@ -153,7 +153,17 @@ pub fn run(ctx: &mut Ctx) {
             0 => {
                 // terminates in exactly n non-final steps, for every n around the limit
                 let n = (limit + r.range(-2, 3) as i32).max(1) as usize;
-                SItem::List((0..n - 1).map(|j| SItem::Int(j as i32)).collect())
+                let mut v: Vec<SItem> = (0..n - 1).map(|j| SItem::Int(j as i32)).collect();
+                // one case in three: the LAST step is the one that grows the state (EXEC is empty
+                // afterwards, nothing is left to run): the cap must be judged on that step too
+                if r.chance(1, 3) {
+                    if v.len() < 2 {
+                        v.insert(0, SItem::Int(7));
+                        v.insert(0, SItem::Int(8));
+                    }
+                    v.push(i(*r.pick(&["INTEGER.DDUP", "INTEGER.DDUP", "INPUT.READ", "INTEGER.DUP"])));
+                }
+                SItem::List(v)
             }
             1 => {
                 // diverges
